@@ -116,15 +116,22 @@ func lockHeldAt(p *core.Prog, at ssa.Instruction) string {
 	return ""
 }
 
-func rulePar8(c *Ctx) {
-	e := parAnalysis(c.P)
-	// functions that run concurrently: reachable from a region without passing a call site that holds a lock
-	type reach struct {
-		from *ssa.Function
-		via  ssa.Instruction
-		root *parRegion
+type parReach struct {
+	from *ssa.Function
+	via  ssa.Instruction
+	root *parRegion
+}
+
+var parConcCache = map[*core.Prog]map[*ssa.Function]*parReach{}
+
+// parConcurrent: the functions that run concurrently — reachable from a region (go operand / runner callback)
+// without passing a call site that holds a lock.
+func parConcurrent(c *Ctx) map[*ssa.Function]*parReach {
+	if m, ok := parConcCache[c.P]; ok {
+		return m
 	}
-	conc := map[*ssa.Function]*reach{}
+	e := parAnalysis(c.P)
+	conc := map[*ssa.Function]*parReach{}
 	var queue []*ssa.Function
 	var roots []*parRegion
 	for _, f := range e.families {
@@ -135,7 +142,7 @@ func rulePar8(c *Ctx) {
 	sort.Slice(roots, func(i, j int) bool { return c.P.Name(roots[i].fn) < c.P.Name(roots[j].fn) })
 	for _, r := range roots {
 		if _, ok := conc[r.fn]; !ok {
-			conc[r.fn] = &reach{root: r}
+			conc[r.fn] = &parReach{root: r}
 			queue = append(queue, r.fn)
 		}
 	}
@@ -158,32 +165,40 @@ func rulePar8(c *Ctx) {
 			if ed.Site != nil && lockHeldAt(c.P, ed.Site) != "" {
 				continue
 			}
-			conc[g] = &reach{from: f, via: ed.Site, root: conc[f].root}
+			conc[g] = &parReach{from: f, via: ed.Site, root: conc[f].root}
 			queue = append(queue, g)
 		}
 		for _, af := range f.AnonFuncs {
 			if _, ok := conc[af]; !ok {
-				conc[af] = &reach{from: f, root: conc[f].root}
+				conc[af] = &parReach{from: f, root: conc[f].root}
 				queue = append(queue, af)
 			}
 		}
 	}
-	pathTo := func(f *ssa.Function) string {
-		var p []string
-		for cur := f; cur != nil; {
-			p = append([]string{c.P.Name(cur)}, p...)
-			r := conc[cur]
-			if r == nil || r.from == nil {
-				break
-			}
-			cur = r.from
-			if len(p) > 8 {
-				p = append([]string{"…"}, p...)
-				break
-			}
+	parConcCache[c.P] = conc
+	return conc
+}
+
+func parPathTo(c *Ctx, conc map[*ssa.Function]*parReach, f *ssa.Function) string {
+	var p []string
+	for cur := f; cur != nil; {
+		p = append([]string{c.P.Name(cur)}, p...)
+		r := conc[cur]
+		if r == nil || r.from == nil {
+			break
 		}
-		return strings.Join(p, " → ")
+		cur = r.from
+		if len(p) > 8 {
+			p = append([]string{"…"}, p...)
+			break
+		}
 	}
+	return strings.Join(p, " → ")
+}
+
+func rulePar8(c *Ctx) {
+	conc := parConcurrent(c)
+	pathTo := func(f *ssa.Function) string { return parPathTo(c, conc, f) }
 
 	// candidate globals
 	type cand struct {
@@ -333,4 +348,261 @@ func globalName(g *ssa.Global) string {
 		return core.Short(g.Pkg.Pkg.Path()) + "." + g.Name()
 	}
 	return g.Name()
+}
+
+// R-PAR-9 ---------------------------------------------------------------------
+
+func init() {
+	Register(&Rule{ID: "R-PAR-9", Props: []string{"C13", "C12"}, Floor: 1,
+		Doc: "objects handed down through a context value are read-only for the workers: for every struct type whose pointer is put into context.WithValue or taken out of ctx.Value by a type assertion (today: the USING values of a prepared statement), no function that runs concurrently stores into a field — or into an element reached through a field — of such an object without a lock, unless the object was allocated in that very function (the context is shared by all worker goroutines of a statement)",
+		Controls: []string{"ctlCtxMemo"},
+		Run:      rulePar9})
+}
+
+func rulePar9(c *Ctx) {
+	conc := parConcurrent(c)
+	// the published types
+	pub := map[string]string{} // named type → where it is published
+	note := func(t types.Type, where string) {
+		pt, ok := t.(*types.Pointer)
+		if !ok {
+			return
+		}
+		n := core.NamedOf(pt)
+		if n == "" {
+			return
+		}
+		if _, isStruct := pt.Elem().Underlying().(*types.Struct); !isStruct {
+			return
+		}
+		if _, ok := pub[n]; !ok {
+			pub[n] = where
+		}
+	}
+	for _, fn := range c.P.SrcFuncs() {
+		for _, call := range core.Calls(fn) {
+			switch c.P.CalleeName(call) {
+			case "context.WithValue":
+				if len(call.Common().Args) == 3 {
+					v := call.Common().Args[2]
+					if mi, ok := v.(*ssa.MakeInterface); ok {
+						note(mi.X.Type(), c.Pos(call))
+					}
+				}
+			default:
+				if call.Common().IsInvoke() && call.Common().Method.Name() == "Value" && strings.HasSuffix(call.Common().Value.Type().String(), "context.Context") {
+					if v, ok := call.(ssa.Value); ok && v.Referrers() != nil {
+						for _, r := range *v.Referrers() {
+							if ta, ok := r.(*ssa.TypeAssert); ok {
+								note(ta.AssertedType, c.Pos(call))
+							}
+						}
+					}
+				}
+			}
+		}
+	}
+	if len(pub) == 0 {
+		c.Unknown("context values", "-", "cannot-analyse: no struct pointer is published through a context value (the prepared-statement USING values are expected)")
+		return
+	}
+	var names []string
+	for n := range pub {
+		names = append(names, n)
+	}
+	sort.Strings(names)
+	for _, n := range names {
+		key := "context value " + n + ": not written by concurrent code"
+		bad := ""
+		cnt := 0
+		for _, fn := range c.P.SrcFuncs() {
+			for _, b := range fn.Blocks {
+				for _, in := range b.Instrs {
+					var addr ssa.Value
+					switch x := in.(type) {
+					case *ssa.Store:
+						addr = x.Addr
+					case *ssa.MapUpdate:
+						addr = x.Map
+					default:
+						continue
+					}
+					// every named base on the way
+					hit := false
+					fresh := false
+					for cur, d := addr, 0; cur != nil && d < 8; d++ {
+						var next ssa.Value
+						switch y := cur.(type) {
+						case *ssa.FieldAddr:
+							if core.NamedOf(y.X.Type()) == n {
+								hit = true
+								for _, o := range core.Origins(y.X, false) {
+									if _, ok := o.(*ssa.Alloc); ok {
+										fresh = true
+									}
+								}
+							}
+							next = y.X
+						case *ssa.IndexAddr:
+							next = y.X
+						case *ssa.UnOp:
+							if y.Op == token.MUL {
+								next = y.X
+							}
+						case *ssa.Slice:
+							next = y.X
+						}
+						cur = next
+					}
+					if !hit || fresh {
+						continue
+					}
+					cnt++
+					c.Touch(fn)
+					if _, isConc := conc[fn]; !isConc {
+						continue
+					}
+					if lockHeldAt(c.P, in) != "" {
+						continue
+					}
+					if bad == "" {
+						bad = fmt.Sprintf("%s stores into a %s at %s without a lock, and runs concurrently (%s %s: %s)", c.P.Name(fn), n, c.Pos(in), conc[fn].root.how, c.P.Name(conc[fn].root.fn), parPathTo(c, conc, fn))
+					}
+				}
+			}
+		}
+		pos := pub[n]
+		c.Check(bad == "", key, pos, fmt.Sprintf("%d store(s) outside constructors; none in concurrent code without a lock", cnt), bad+": the object is shared by every worker of the statement through the context")
+	}
+}
+
+// R-PAR-10 --------------------------------------------------------------------
+
+func init() {
+	Register(&Rule{ID: "R-PAR-10", Props: []string{"C12"}, Floor: 1,
+		Doc: "no piecewise unstable sort: inside a concurrent region (go operand / task-manager callback and its nested closures) sort.Sort / sort.Slice is never applied to a value built from a variable the region shares with its siblings (a captured slice, view or wrapper indexed by the task) — sort.Sort is unstable, so sorting task-sized pieces of one collection and merging them orders tied rows differently for every --cpu; the whole-view sort of ORDER BY (sort.Sort(view) outside any region) is the reference instance",
+		Controls: []string{"CtlPiecewiseSort"},
+		Run:      rulePar10})
+}
+
+func rulePar10(c *Ctx) {
+	e := parAnalysis(c.P)
+	// reference instance: ORDER BY sorts the whole view, outside concurrent code
+	conc := parConcurrent(c)
+	whole := 0
+	for _, fn := range c.P.FuncsIn(false, "lib/query") {
+		for _, call := range c.P.CallsNamed(fn, "sort.Sort", "sort.Slice") {
+			_ = call
+			whole++
+			c.Touch(fn)
+		}
+	}
+	if ob := c.Fn("lib/query.(*View).OrderBy"); ob != nil {
+		n := 0
+		for f := range staticReach(ob) {
+			if !c.P.InPkg(f, "lib/query") {
+				continue
+			}
+			for _, call := range c.P.CallsNamed(f, "sort.Sort", "sort.Stable", "sort.Slice", "sort.SliceStable") {
+				n++
+				_, isConc := conc[f]
+				inRegion := false
+				for _, fam := range e.families {
+					for _, r := range fam.regions {
+						if r.fn == f || f.Parent() == r.fn {
+							inRegion = true
+						}
+					}
+				}
+				c.Check(!inRegion, c.KeyAt(f, "ORDER BY sorts the view with one call"), c.Pos(call), fmt.Sprintf("outside any concurrent region (function reachable from regions: %v — then each instance sorts its own view)", isConc),
+					"the sort of ORDER BY runs inside a concurrent region: each worker sorts a piece")
+			}
+		}
+		if n == 0 {
+			c.Unknown(c.KeyAt(ob, "ORDER BY sorts the view with one call"), c.FnPos(ob), "cannot-analyse: no sort call reachable from View.OrderBy through lib/query")
+		}
+	}
+	// no unstable sort of shared data inside a region
+	for _, fam := range e.families {
+		for _, r := range fam.regions {
+			fns := append([]*ssa.Function{r.fn}, r.fn.AnonFuncs...)
+			for _, f := range fns {
+				k := 0
+				for _, call := range c.P.CallsNamed(f, "sort.Sort", "sort.Slice") {
+					k++
+					c.Touch(f)
+					key := c.KeyAt(f, fmt.Sprintf("unstable sort #%d in a concurrent region", k))
+					shared := sharedIngredient(call.Common().Args[0], r.fn)
+					c.Check(shared == "", key, c.Pos(call), "sorts a value made inside the worker", "sorts "+shared+", which the region shares with its sibling instances ("+r.how+"): each instance sorts a task-dependent piece with an unstable sort, so the order of tied rows depends on the number of goroutines")
+				}
+			}
+		}
+	}
+	_ = whole
+}
+
+// sharedIngredient: a free variable / parameter of the region function that the sorted value is built from.
+func sharedIngredient(v ssa.Value, region *ssa.Function) string {
+	seen := map[ssa.Value]bool{}
+	res := ""
+	var walk func(v ssa.Value, d int)
+	walk = func(v ssa.Value, d int) {
+		if v == nil || seen[v] || d > 10 || res != "" {
+			return
+		}
+		seen[v] = true
+		switch x := v.(type) {
+		case *ssa.FreeVar:
+			res = "the captured variable " + x.Name()
+		case *ssa.MakeInterface:
+			walk(x.X, d+1)
+		case *ssa.ChangeType:
+			walk(x.X, d+1)
+		case *ssa.ChangeInterface:
+			walk(x.X, d+1)
+		case *ssa.Convert:
+			walk(x.X, d+1)
+		case *ssa.Phi:
+			for _, e := range x.Edges {
+				walk(e, d+1)
+			}
+		case *ssa.UnOp:
+			walk(x.X, d+1)
+		case *ssa.IndexAddr:
+			walk(x.X, d+1)
+		case *ssa.Index:
+			walk(x.X, d+1)
+		case *ssa.FieldAddr:
+			walk(x.X, d+1)
+		case *ssa.Field:
+			walk(x.X, d+1)
+		case *ssa.Slice:
+			walk(x.X, d+1)
+		case *ssa.Alloc:
+			// a local struct: what is stored into it
+			if x.Referrers() != nil {
+				for _, r := range *x.Referrers() {
+					switch y := r.(type) {
+					case *ssa.Store:
+						if y.Addr == ssa.Value(x) {
+							walk(y.Val, d+1)
+						}
+					case *ssa.FieldAddr:
+						for _, rr := range *y.Referrers() {
+							if st, ok := rr.(*ssa.Store); ok && st.Addr == ssa.Value(y) {
+								walk(st.Val, d+1)
+							}
+						}
+					}
+				}
+			}
+		case *ssa.Call:
+			// sort.Reverse(x), wrappers taking the collection
+			for _, a := range x.Call.Args {
+				walk(a, d+1)
+			}
+		}
+	}
+	walk(v, 0)
+	return res
 }
